@@ -11,7 +11,7 @@ cd "$WT"
 if ! git apply "$SEED/patch.diff" 2> "$SEED/val_apply.log"; then APPLY=fail; else APPLY=ok; fi
 /venv/bin/python "$SEED/demo.py" > "$SEED/val_mut.log" 2>&1; MUT=$?
 if [ "${2:-suite}" = "suite" ]; then
-  nice -n 5 timeout 2400 /venv/bin/python -m pytest -q -p no:cacheprovider --timeout=900 -q > "$SEED/val_suite.log" 2>&1; SUITE=$?
+  nice -n 5 timeout 2400 /venv/bin/python -m pytest -q -p no:cacheprovider --timeout=240 -q > "$SEED/val_suite.log" 2>&1; SUITE=$?
   SUMMARY=$(grep -E "passed|failed" "$SEED/val_suite.log" | tail -1)
   if [ $SUITE -ne 0 ]; then
     # the machine is shared: rerun only the failed tests, alone, before concluding anything
